@@ -357,6 +357,17 @@ def rule_SUB(body, arg):
     return body.replace(frm.strip(), to.strip()), n
 
 
+def rule_SUBW(body, arg):
+    """R8w: as R8, but blind to layout: whitespace in `from` and in the source is ignored (rustfmt breaks long
+    method chains over several lines); must match at least once."""
+    frm, to = arg.split("=>")
+    chars = [re.escape(ch) for ch in re.sub(r"\s+", "", frm)]
+    body, n = re.subn(r"\s*".join(chars), lambda m: to.strip(), body)
+    if n == 0:
+        raise LostAnchor("R8w: text `%s` not found" % frm.strip())
+    return body, n
+
+
 def rule_R10(body, arg=None):
     """`for _ in <range>`: name the iterator so that a loop invariant can mention the iteration count."""
     return re.subn(r"\bfor\s+_\s+in\s+", "for _ in __it: ", body)
@@ -410,6 +421,19 @@ def rule_R13(body, arg):
     return re.subn(pat, "let __v = %s; for __k in __it: 0..__v.len() { let %s = __v[__k];" % (v, x), body)
 
 
+def rule_R13r(body, arg):
+    """`for X in V {` where V is a `&Vec<T>` / `&[T]` (or `.iter()` of one): borrowing iteration -> index loop over the
+    same elements in the same order: `let __v_X = V; for __k_X in __it_X: 0..__v_X.len() { let X = &__v_X[__k_X];`"""
+    x, v = [t.strip() for t in arg.split(" in ", 1)]
+    chars = [re.escape(ch) for ch in re.sub(r"\s+", "", "for %s in %s {" % (x, v))]
+    src = v[:-len(".iter()")] if v.endswith(".iter()") else v
+    rep = "let __v_%s = %s; for __k_%s in __it_%s: 0..__v_%s.len() { let %s = &__v_%s[__k_%s];" % (x, src, x, x, x, x, x, x)
+    body, n = re.subn(r"\s*".join(chars), lambda m: rep, body)
+    if n == 0:
+        raise LostAnchor("R13r: loop `for %s in %s` not found" % (x, v))
+    return body, n
+
+
 def rule_R4s(body, arg=None):
     """`X.shrink_to_fit();` is dropped: it only changes capacity (no vstd specification, no observable effect)"""
     return re.subn(r"[\w\.]+\.shrink_to_fit\(\);", "", body)
@@ -421,7 +445,7 @@ def rule_R14(body, arg):
     return re.subn(r"break\s+'%s\s*;" % re.escape(arg.strip()), "return Ok(());", body)
 
 
-RULES = {"R14": rule_R14, "R4s": rule_R4s, "R13": rule_R13, "R4d": rule_R4d, "R12": rule_R12, "R1p": rule_R1p, "R6n": rule_R6n, "R10": rule_R10, "R11": rule_R11, "R1": rule_R1, "R2": rule_R2, "R3": rule_R3, "R4": rule_R4, "R6": rule_R6, "R7": rule_R7, "R8": rule_SUB}
+RULES = {"R13r": rule_R13r, "R14": rule_R14, "R4s": rule_R4s, "R13": rule_R13, "R4d": rule_R4d, "R12": rule_R12, "R1p": rule_R1p, "R6n": rule_R6n, "R10": rule_R10, "R11": rule_R11, "R1": rule_R1, "R2": rule_R2, "R3": rule_R3, "R4": rule_R4, "R6": rule_R6, "R7": rule_R7, "R8": rule_SUB, "R8w": rule_SUBW}
 
 
 def apply_rules(body, rules, counts):
@@ -429,7 +453,7 @@ def apply_rules(body, rules, counts):
         r = r.strip()
         if not r:
             continue
-        m = re.match(r"(R\d+[npds]?)(?:\[(.*)\])?$", r, re.S)
+        m = re.match(r"(R\d+[npdswr]?)(?:\[(.*)\])?$", r, re.S)
         if not m or m.group(1) not in RULES:
             raise ValueError("unknown rule %r" % r)
         body, n = RULES[m.group(1)](body, m.group(2))
